@@ -80,6 +80,9 @@ pub const FAM_C0: u8 = 1;
 pub const FAM_LEN: u8 = 2;
 pub const FAM_LOW3: u8 = 3;
 pub const FAM_FNV: u8 = 4;
+/// like `fnv`, but `Clone` draws a NEW seed: every table that is handed a clone of the hasher hashes differently
+/// (legal for `S: BuildHasher + Clone`; an interner must hash each table with that table's own hasher instance)
+pub const FAM_RCL: u8 = 5;
 
 /// Parses the `H=` token
 pub fn family_from_name(name: &str) -> Option<u8> {
@@ -89,6 +92,7 @@ pub fn family_from_name(name: &str) -> Option<u8> {
         "len" => FAM_LEN,
         "low3" => FAM_LOW3,
         "fnv" => FAM_FNV,
+        "rcl" => FAM_RCL,
         _ => return None,
     })
 }
@@ -111,8 +115,8 @@ pub fn current_family() -> u8 {
     CURRENT_FAMILY.with(|f| f.get())
 }
 
-/// A `BuildHasher` of one of five families; every instance carries a seed
-#[derive(Clone, Copy, Debug, PartialEq, Eq)]
+/// A `BuildHasher` of one of six families; every instance carries a seed
+#[derive(Debug, PartialEq, Eq)]
 pub struct VHasher {
     pub family: u8,
     pub seed: u64,
@@ -128,6 +132,19 @@ impl VHasher {
         Self {
             family: current_family(),
             seed,
+        }
+    }
+}
+
+impl Clone for VHasher {
+    fn clone(&self) -> Self {
+        Self {
+            family: self.family,
+            seed: if self.family == FAM_RCL {
+                DEFAULT_SEED.fetch_add(1, Ordering::Relaxed)
+            } else {
+                self.seed
+            },
         }
     }
 }
@@ -195,7 +212,7 @@ impl BuildHasher for VHasher {
                 state: fnv_feed(FNV_OFFSET, &self.seed.to_le_bytes()),
                 mask: 7,
             },
-            FAM_FNV => VHash::Fnv {
+            FAM_FNV | FAM_RCL => VHash::Fnv {
                 state: fnv_feed(FNV_OFFSET, &self.seed.to_le_bytes()),
                 mask: u64::MAX,
             },
